@@ -135,6 +135,110 @@ func c09E2E(c *Ctx, stream string) {
 			}
 			c09Web(c, "e2e-lines-web", b.p, nil, []c09Req{{"/source", "f=hot"}, {"/peek", "f=hot"}, {"/disasm", "f=hot"}, {"/flamegraph", ""}})
 		}
+	case "e2e-numeric":
+		// NEGATIVE / out-of-range numeric option values on report kinds that trim: every numeric field
+		// of the configuration table (ints, floats), sample_index numbers, integer arguments of
+		// commands (`top -3`), n=/nf=/ef=/si= URL parameters -- followed by EVERY report format, on a
+		// profile with more nodes than any limit (wide), the two-caller diamond and the mixed one.
+		ints := []string{"-3", "-2", "-1", "-1000000", "0", "1", "2147483647", "-2147483648", "2147483648", "9223372036854775807", "-9223372036854775808", "99999999999999999999"}
+		floats := []string{"-0.5", "-1", "-1e300", "1e300", "1e-300", "5e-324", "1.5", "1", "NaN", "Inf", "-Inf", "-0"}
+		type nv struct{ name, value, urlparam string }
+		var nvs []nv
+		for _, f := range driver.VerifC09Default() {
+			switch f.Kind {
+			case "int":
+				for _, v := range ints {
+					nvs = append(nvs, nv{f.Name, v, f.URLParam})
+				}
+			case "float":
+				for _, v := range floats {
+					nvs = append(nvs, nv{f.Name, v, f.URLParam})
+				}
+			}
+			if f.Name == "sample_index" {
+				for _, v := range []string{"-1", "-3", "1", "2", "99", "2147483648", "-9223372036854775808"} {
+					nvs = append(nvs, nv{f.Name, v, f.URLParam})
+				}
+			}
+		}
+		wide := shapes[2].p
+		cmdLines := c09MatrixLines(0, full)
+		for i, e := range nvs {
+			for si, p := range []*profile.Profile{wide, diamond, mixed} {
+				if !full && si > 0 && (i+si)%3 != int(c.Seed%3) {
+					continue // quick: every value on the wide profile, a rotating third on the others
+				}
+				lines := append([]string{e.name + "=" + e.value}, cmdLines...)
+				c09Session(c, "e2e-numeric-session", p, lines, true)
+			}
+		}
+		// integer tokens on the command line of a report command (parseCommandLine reads them as node count)
+		names, hasParam := driver.VerifC09Commands()
+		for _, n := range []string{"-3", "-1", "0", "-2", "-2147483648", "2147483647", "2147483648", "-0", "+3", "-03"} {
+			var lines []string
+			for i, cmd := range names {
+				if hasParam[i] {
+					lines = append(lines, cmd+" . "+n)
+				} else {
+					lines = append(lines, cmd+" "+n)
+				}
+			}
+			c09Session(c, "e2e-numeric-arg", wide, lines, true)
+			c09Session(c, "e2e-numeric-arg", diamond, append([]string{"call_tree=true"}, lines...), true)
+		}
+		// the same values as command-line flags ...
+		for i, e := range nvs {
+			for ci, cmd := range []string{"-top", "-tree", "-dot", "-text", "-callgrind", "-peek=.", "-traces", "-svg", "-list=.", "-tags", "-raw", "-topproto"} {
+				if !full && ci >= 4 && (i+ci)%3 != int(c.Seed%3) {
+					continue
+				}
+				c09CLI(c, "e2e-numeric-cli", wide, []string{cmd, "-" + e.name + "=" + e.value, "-output=out", "p"}, nil)
+			}
+		}
+		// ... and as URL parameters on every report handler
+		var nreqs []c09Req
+		for _, e := range nvs {
+			if e.urlparam == "" {
+				continue
+			}
+			for _, pth := range []string{"/", "/top", "/peek", "/flamegraph", "/source", "/disasm"} {
+				q := url.QueryEscape(e.urlparam) + "=" + url.QueryEscape(e.value)
+				if pth == "/peek" || pth == "/source" || pth == "/disasm" {
+					q += "&f=."
+				}
+				nreqs = append(nreqs, c09Req{pth, q})
+				if len(nreqs) == 12 {
+					c09Web(c, "e2e-numeric-web", wide, nil, nreqs)
+					nreqs = nil
+				}
+			}
+		}
+		if len(nreqs) > 0 {
+			c09Web(c, "e2e-numeric-web", wide, nil, nreqs)
+		}
+	case "e2e-paths":
+		// file names that EQUAL a prefix they are matched against (trim_path entries, the built-in
+		// /proc/self/cwd, source_path entries), with and without trailing slash, empty and "/"
+		for _, fnames := range [][]string{{"/proc/self/cwd", "dir", "dir/sub/x.go"}, {"/proc/self/cwd/", "dir/", "/"}, {"", ".", "/home/u/src"}} {
+			b := newC09ShapeBuilder("samples")
+			b.sample("leaf left main", 100)
+			b.sample("leaf right main", 60)
+			b.sample("other main", 5)
+			for i, f := range b.p.Function {
+				f.Filename = fnames[i%len(fnames)]
+			}
+			if b.p.CheckValid() != nil {
+				continue
+			}
+			cmdLines := c09MatrixLines(0, full)
+			for _, tp := range []string{"dir", "dir/", "/proc/self/cwd", "/", "dir:/home/u/src::/", "/home/u/src", ".", "dir/sub/x.go"} {
+				c09Session(c, "e2e-paths", b.p, append([]string{"trim_path=" + tp}, cmdLines...), true)
+				c09Session(c, "e2e-paths", b.p, append([]string{"source_path=" + tp, "trim_path=" + tp}, "list .", "weblist .", "top"), true)
+				c09CLI(c, "e2e-paths-cli", b.p, []string{"-top", "-trim_path=" + tp, "-output=out", "p"}, nil)
+				c09CLI(c, "e2e-paths-cli", b.p, []string{"-list=.", "-trim_path=" + tp, "-source_path=" + tp, "-output=out", "p"}, nil)
+			}
+			c09Web(c, "e2e-paths-web", b.p, []string{"-trim_path=dir:/proc/self/cwd"}, []c09Req{{"/", ""}, {"/flamegraph", ""}, {"/source", "f=."}, {"/top", ""}})
+		}
 	case "e2e-cli":
 		for ni, n := range c09FilterNames {
 			for vi, v := range c09LongValues(n) {
